@@ -1,7 +1,7 @@
 (* C04 -- the statements of Props.v with all section variables generalised. *)
 From Coq Require Import List Arith Bool Ring.
 Import ListNotations.
-Require Import NV.C03.Model NV.C04.Model NV.C04.Proofs NV.C04.ProofsE NV.C04.ProofsM.
+Require Import NV.C03.Model NV.C04.Model NV.C04.Proofs NV.C04.ProofsE NV.C04.ProofsM NV.C04.ProofsM2.
 
 Section Closed.
   Variable A : Type.
@@ -58,13 +58,13 @@ Section Closed.
     ekeys A P (simplifyC cs rc h) = filter (fun k => negb (cs k)) (ekeys A P h).
   Proof. eapply ekeys_simplifyC; eauto. Qed.
 
-  Lemma c_metric K cs rc r (h : cen A P) : agree A cs rc r -> gchain A P h = true -> cshape A P dims K h = true ->
+  Lemma c_metric K cs rc r (h : cen A P) : agree A cs rc r -> mfam A P h = true -> cshape A P dims K h = true ->
     (forall d k j, k < K -> j < dims k ->
        metapp true (simplifyC cs rc h) r d k j = if cs k then a0 else metapp true h r (mask cs d) k j)
     /\ (allc cs (ekeys A P h) = false -> has_met true (simplifyC cs rc h) r = has_met true h r).
   Proof.
     intros Ha Hg Hs. split.
-    - intros; eapply gchain_metric; eauto.
-    - intros; eapply gchain_has_met; eauto.
+    - intros; eapply fam_metric; eauto.
+    - intros; eapply fam_has_met; eauto.
   Qed.
 End Closed.
